@@ -54,10 +54,19 @@ TMove == /\ IsEvent("move")
             ELSE pos' = pos
          /\ UNCHANGED ok
 
+\* a quiescence node the REAL search entered (event sink of src/search.rs), with the move list it is about to
+\* examine; the position comes with the reset event right before
+QNodeChecks(e, p) ==
+  LET want == IF InCheck(p) THEN Legal(p) ELSE Tactical(p)
+  IN [C17_search_examines_exactly |-> SeqToSet(e.moves) = {Uci(m) : m \in want} /\ Len(e.moves) = Cardinality(want)]
+TQNode == /\ IsEvent("qnode")
+          /\ ok => LET c == QNodeChecks(Rec[l], pos) IN \A k \in DOMAIN c : c[k]
+          /\ UNCHANGED <<pos, ok>>
+
 \* a panic of the code under test is an event no action allows in a valid game
 TPanic == IsEvent("panic") /\ ~ok /\ UNCHANGED <<pos, ok>>
 
-TNext == TReset \/ TProbe \/ TMove \/ TPanic
+TNext == TReset \/ TProbe \/ TMove \/ TQNode \/ TPanic
 TSpec == TInit /\ [][TNext]_vars
 
 \* every state of a validated game is a Valid position (the invariant of Chess.tla)
@@ -69,6 +78,7 @@ Diag == (l = StuckAt /\ l <= Len(Rec)) =>
                    IF ~ok THEN <<>> ELSE
                    IF Rec[l].ev = "probe" THEN ProbeChecks(Rec[l], pos)
                    ELSE IF Rec[l].ev = "move" THEN MoveChecks(Rec[l], pos)
+                   ELSE IF Rec[l].ev = "qnode" THEN QNodeChecks(Rec[l], pos)
                    ELSE <<"no action allows", Rec[l].ev>>,
                    ToFEN4(pos)>>)
 
